@@ -439,4 +439,13 @@ theorem scanSigners_noRS (e : Env) (k : Hash → Option (List Key)) (hrs : e.cur
   | [] => by simp [scanSigners]
   | c :: cs => by simp only [scanSigners, checkSigner_noRS e k hrs c, scanSigners_noRS e k hrs h cs]
 
+theorem ofCalls_parents_length (k : Hash → Option (List Key)) (f0 : Frame) (fs : List Frame) :
+    (Env.ofCalls k f0 fs).parents.length = fs.length := by
+  unfold Env.ofCalls
+  suffices h : ∀ (e : Env), (fs.foldl Env.push e).parents.length = e.parents.length + fs.length by
+    simpa using h { cur := f0, parents := [], contracts := k }
+  induction fs with
+  | nil => simp
+  | cons f fs ih => intro e; simp [List.foldl_cons, ih, Env.push]; omega
+
 end NeoModel.Witness
